@@ -78,6 +78,13 @@ class Ctx:
         except AnalysisError as exc:
             self.undecided.append(str(exc))
             return None
+        except (IndexError, KeyError, AttributeError, TypeError, ValueError, StopIteration, AssertionError) as exc:
+            # a rule met a code shape its pattern matching did not anticipate: that is "not recognised", never a verdict
+            import traceback
+
+            tb = traceback.extract_tb(exc.__traceback__)[-1]
+            self.undecided.append(f"{getattr(fn, '__name__', 'rule')}: code shape not recognised ({type(exc).__name__}: {exc} at {tb.filename.split('/')[-1]}:{tb.lineno})")
+            return None
 
     # -- obligations -----------------------------------------------------------
     def ok(self, rule: str, where: str, what: str, node: Optional[ast.AST] = None, fi: Optional[FuncInfo] = None) -> None:
